@@ -379,6 +379,7 @@ pub fn kind_cases() -> Vec<(String, String, bool)> {
 
 impl UnitRunner for C17 {
   fn unit(&mut self, _payload: &str, unit: u64, out: &mut WorkerOut) {
+    if _payload == "contexts" { return context_unit(unit, out); }
     let base = self.ms.len() + self.vms.len() + self.tms.len();
     if unit as usize >= base {
       let ams = arg_machines(self.tier);
@@ -529,7 +530,9 @@ impl Check for C17 {
     let vms = self.vms.clone();
     let tms = self.tms.clone();
     rep.describe = Some(Box::new(move |_p, u| if (u as usize) < ms.len() { (ms[u as usize].shape.clone(), render(&ms[u as usize], "3u64").replace('\n', " ⏎ ")) } else if (u as usize) < ms.len() + vms.len() { let v = &vms[u as usize - ms.len()]; (v.shape.clone(), vrender(v, 2).replace('\n', " ⏎ ")) } else { let t = &tms[u as usize - ms.len() - vms.len()]; (t.shape.clone(), trender(t, "2u64", "3u64").replace('\n', " ⏎ ")) }));
-    drive_ranges(cfg, rep, range_jobs("", n, 2));
+    let mut jobs = range_jobs("", n, 2);
+    jobs.extend(range_jobs("contexts", 4, 1));
+    drive_ranges(cfg, rep, jobs);
     let visited = rep.out.counters.get("visited_states").copied().unwrap_or(0);
     rep.cov("states", json!(rep.out.nontrivial.max(1)));
     rep.cov("transitions", json!(rep.out.evaluations.max(1)));
@@ -540,5 +543,32 @@ impl Check for C17 {
       every machine with the synchronous -> and the asynchronous ~> transition operator; a vector-payload family (spread patterns [x … y], [… y], [x …], [a b c] whose state is re-entered with every arrangement of the bound names, k and a constant); a two-payload family (:S(p, q) with every ordered selection of 1..2 (3 in the thorough tier, thinned) of six guarded branches that subtract, move or swap the fields, three outputs, on every pair of inputs 0..3 / 0..4, plus calls with one argument and with f64 arguments); ill-formed variants (undeclared target, declared state without an arm, f64 argument, undeclared start state); the run is compared state by state (name and payload, read from the interpreter's own step trace events) and in its result with a reference simulator; the transition limit is checked at max_steps in {{1,2,3,5,8}}. states = runs judged, transitions = runs executed (each run is one trace validated against the implementation)", n, tier.pick(5, 7));
     rep.assumptions = vec!["a configuration in which no guard holds, and payload underflow, are not judged beyond no panic/hang".into(), "the exact off-by-one of the transition limit is not judged (limit >= transitions+2 must succeed, limit < transitions must fail)".into()];
     if rep.out.sets.get("terminating_shapes").map(|s| s.len()).unwrap_or(0) < 20 { rep.vacuity.push("fewer than 20 machine shapes terminated with a compared trace".into()); }
+  }
+}
+
+/// A machine invoked where its arguments are bound locally (function parameters, match-arm bindings, comprehension generators; every local
+/// name shadowed by a global of another value): the call must return what the same call returns with global arguments.
+fn context_unit(unit: u64, out: &mut WorkerOut) {
+  use crate::ctx::{lv, Tpl};
+  let arrow = if unit % 2 == 0 { "->" } else { "~>" };
+  let euclid = unit / 2 == 0;
+  let body = if euclid { format!("  :S(p, q)\n    ├ p > q {a} :S(p - q, q)\n    ├ q > p {a} :S(p, q - p)\n    └ * -> :D(p * 10u64 + q)\n", a = arrow) } else { format!("  :S(p, q)\n    ├ p > 0u64 {a} :S(p - 1u64, q + 2u64)\n    └ * -> :D(q)\n", a = arrow) };
+  let def = format!("#T(a<u64>, b<u64>) => <u64>\n  ├ :S(p<u64>, q<u64>)\n  └ :D(r<u64>).\n\n#T(a<u64>, b<u64>) -> :S(a, b)\n{}  :D(r) => r.", body);
+  let mut s = Session::new();
+  if !s.run(&def).is_value() { out.count("context_setup_rejected"); return; }
+  for d in ["a := 9u64", "b := 8u64", "p := 7u64", "q := 6u64"] { s.run(d); }
+  let mut n = 0;
+  for (av, bv) in [(3u64, 4u64), (6, 4), (5, 5), (1, 2)] {
+    n += 1;
+    let (ga, gb) = (format!("ga{}", n), format!("gb{}", n));
+    s.run(&format!("{} := {}u64", ga, av)); s.run(&format!("{} := {}u64", gb, bv));
+    let mk = |local: &str, top: String, two: bool, names: (&str, &str)| Tpl { local: local.to_string(), top, vars: if two { vec![lv(names.0, &ga, "u64"), lv(names.1, &gb, "u64")] } else { vec![lv(names.0, &ga, "u64")] }, scalar_operands: true, set_ok: true, tag: format!("{}:{}:{}", local, if euclid { "euclid" } else { "move" }, arrow), fn_ok: true };
+    let tpls = vec![
+      mk("#T(a, b)", format!("#T({}, {})", ga, gb), true, ("a", "b")), mk("#T(b, a)", format!("#T({}, {})", gb, ga), true, ("a", "b")),
+      mk("#T(a + 1u64, b)", format!("#T({} + 1u64, {})", ga, gb), true, ("a", "b")), mk("#T(a, a)", format!("#T({}, {})", ga, ga), false, ("a", "")),
+      // local names that are also the machine's own state-pattern names
+      mk("#T(p, q)", format!("#T({}, {})", ga, gb), true, ("p", "q")), mk("#T(q, p) + #T(p, q)", format!("#T({}, {}) + #T({}, {})", gb, ga, ga, gb), true, ("p", "q")),
+    ];
+    crate::ctx::judge_templates("C17", &mut s, &tpls, n * 100, &format!("{} ;; a := 9u64; b := 8u64; p := 7u64; q := 6u64 (globals); {} := {}u64; {} := {}u64", def.replace('\n', " ⏎ "), ga, av, gb, bv), out);
   }
 }
